@@ -1,0 +1,40 @@
+//go:build verif
+// +build verif
+
+// Contracts for package core (C19, C18), read by /verif/engine (govc). Comment-only file: it adds no code.
+
+package core
+
+//@ func Import
+//@ props C19 C18
+//@ traced e -> result
+//@ requires e != nil
+//@ requires [C13] nolocks: nolocks()
+//@ modifies heap("MV:Int:Int"), heap("MP:Int"), heap("env.Env.values"), heap("env.Env.types")
+//@ ensures [C18 C19] same: result == e
+
+//@ func ImportToX
+//@ props C19
+//@ requires e != nil
+//@ requires [C13] nolocks: nolocks()
+//@ modifies heap("MV:Int:Int"), heap("MP:Int"), heap("env.Env.values"), heap("env.Env.types")
+
+// range(start?, stop, step?): the arithmetic progression start, start+step, ... strictly before stop.
+// before(x): x lies strictly before stop in the direction of step
+//@ func Import$2
+//@ props C19
+//@ may_panic
+//@ panics_only_when len(args) == 0 || len(args) > 3 || (len(args) == 3 && args[2] == 0)
+//@ ensures [C19] arity: 1 <= len(args) && len(args) <= 3 && (len(args) == 3 ==> args[2] != 0)
+//@ ensures [C19] first: len(result) > 0 ==> result[0] == rstart(args)
+//@ ensures [C19] steps: forall k int :: 0 < k && k < len(result) ==> result[k] == result[k-1] + rstep(args)
+//@ ensures [C19] within: forall k int :: 0 <= k && k < len(result) ==> rbefore(args, result[k])
+//@ ensures [C19] maximal: (len(result) == 0 ==> !rbefore(args, rstart(args))) && (len(result) > 0 ==> !rbefore(args, result[len(result)-1] + rstep(args)))
+//@ loop 0 invariant a: fresh(base(arr)) && start == rstart(args) && stop == rstop(args) && step == rstep(args) && step != 0
+//@ loop 0 invariant b: (len(arr) == 0 ==> i == start) && (len(arr) > 0 ==> arr[0] == start && i == arr[len(arr)-1] + step)
+//@ loop 0 invariant c: forall k int :: 0 < k && k < len(arr) ==> arr[k] == arr[k-1] + step
+//@ loop 0 invariant d: forall k int :: 0 <= k && k < len(arr) ==> rbefore(args, arr[k])
+//@ spec fun rstart(a []int64) int = ite(len(a) >= 2, a[0], 0)
+//@ spec fun rstop(a []int64) int = ite(len(a) >= 2, a[1], a[0])
+//@ spec fun rstep(a []int64) int = ite(len(a) == 3, a[2], 1)
+//@ spec fun rbefore(a []int64, x int) bool = (rstep(a) > 0 && x < rstop(a)) || (rstep(a) < 0 && x > rstop(a))
